@@ -593,6 +593,8 @@ class KEval:
                 if c is not None and c == Fraction(1, 2):
                     return Poly.fn("sqrt", a)
                 return Poly.fn("pow", a, b)
+            if isinstance(op, ast.MatMult):
+                return Poly.fn("matmul", a, b)
             if isinstance(op, (ast.BitAnd, ast.BitOr, ast.BitXor)):
                 return Poly.fn({ast.BitAnd: "and", ast.BitOr: "or", ast.BitXor: "xor"}[type(op)], a, b)
         except ZeroDivisionError:
@@ -619,7 +621,7 @@ class KEval:
                 if isinstance(v, Const) and v.v is None:
                     out.append(Poly.sym("None"))
                 elif isinstance(v, Cond):
-                    out.append(Poly.fn("mask", Poly.sym(v.key())))
+                    out.append(Poly.fn("mask", Poly.sym(repr(norm_key(v)))))
                 else:
                     s = self.scalar(v)
                     out.append(s if isinstance(s, Poly) else Poly.sym("?"))
@@ -863,6 +865,24 @@ class KEval:
             if name == "square" and args:
                 s = self.scalar(args[0])
                 return s * s if isinstance(s, Poly) else TOP
+            if name in ("multiply", "add", "subtract", "divide") and len(args) >= 2 and ("out" in kw or "where" in kw):
+                a, b = self.scalar(args[0]), self.scalar(args[1])
+                res = self.binop({"multiply": ast.Mult(), "add": ast.Add(), "subtract": ast.Sub(), "divide": ast.Div()}[name], a, b)
+                if isinstance(res, Poly):
+                    if "where" not in kw:
+                        return res
+                    w = kw["where"]
+                    wp = Poly.sym(repr(norm_key(w))) if isinstance(w, Cond) else self.scalar(w)
+                    o = kw.get("out")
+                    if isinstance(o, Ref) and o.init is not None and isinstance(o.init[1], Poly):
+                        op_ = o.init[1]
+                    elif o is None:
+                        op_ = Poly.sym("uninitialised")
+                    else:
+                        op_ = self.scalar(o) if isinstance(self.scalar(o), Poly) else Poly.sym("?out")
+                    if isinstance(wp, Poly):
+                        return Poly.fn("masked", res, wp, op_)
+                return TOP
             if name in ("multiply", "add", "subtract", "divide") and len(args) >= 2 and "out" not in kw and "where" not in kw:
                 a, b = self.scalar(args[0]), self.scalar(args[1])
                 return self.binop({"multiply": ast.Mult(), "add": ast.Add(), "subtract": ast.Sub(), "divide": ast.Div()}[name], a, b)
@@ -983,6 +1003,16 @@ class KEval:
         if d > 1:
             return Poly.fn("fdiv", p * Poly.const(d), Poly.const(d))
         return Poly.fn("int", p)
+
+
+def norm_key(c: Cond):
+    """orientation-insensitive key of a comparison (used to name a `where=` mask)"""
+    if c.kind == "cmp":
+        a, op, b = c.args
+        if op in ("==", "!=") and repr(a) > repr(b):
+            a, b = b, a
+        return (repr(a), op, repr(b))
+    return c.key()
 
 
 def _gcd(a, b):
